@@ -17,6 +17,7 @@ CONSTANTS
   RunOnArbiterThread = TRUE
   StopBeforeCode = FALSE
   DeregOwnId = TRUE
+  RegBeforeReady = TRUE
   ExecuteOnce = TRUE
   SendFailsWhenGone = TRUE
   JoinWaitsExit = TRUE
